@@ -94,7 +94,14 @@ func ChildMain(args []string, w io.Writer) int {
 	bw := bufio.NewWriter(w)
 	for _, c := range cr.ChildCases(args[1], sub) {
 		key, _ := c.Meta["xkey"].(string)
-		fmt.Fprintf(bw, "%s %s %s\n", key, xprocHistSum(c.Hist), xprocSha(ObsText(ExecFresh(c.Hist))))
+		txt := ObsText(ExecFresh(c.Hist))
+		if c.Meta["xtext"] == true {
+			// a fourth field: the observations themselves (hex); runChild skips such lines, the
+			// properties that ask for them parse the output themselves (C09, c09_spell.go)
+			fmt.Fprintf(bw, "%s %s %s %s\n", key, xprocHistSum(c.Hist), xprocSha(txt), hex.EncodeToString([]byte(txt)))
+			continue
+		}
+		fmt.Fprintf(bw, "%s %s %s\n", key, xprocHistSum(c.Hist), xprocSha(txt))
 	}
 	fmt.Fprintln(bw, "end")
 	if bw.Flush() != nil {
